@@ -192,22 +192,25 @@ structure Acc where
   cells : List ((Bytes × Bytes) × Cmp) := []
   hp : List (Bytes × (Bytes × Bytes)) := []
 
-def setIfAbsent {κ ν} [DecidableEq κ] (k : κ) (v : ν) (m : List (κ × ν)) : List (κ × ν) :=
-  match alookup k m with
-  | none => aset k v m
-  | some _ => m
+/-- the HashPairs update of benchseries.go:539-556 (after commit 83c6e29): first writer wins,
+except that a missing denominator hash ("" — the trial had no baseline) is filled in by a later
+trial with the same numerator hash -/
+def setHP (ser : Bytes) (h bh : Bytes) (m : List (Bytes × (Bytes × Bytes))) : List (Bytes × (Bytes × Bytes)) :=
+  match alookup ser m with
+  | none => aset ser (h, bh) m
+  | some (n, d) => if n = h ∧ d = [] then aset ser (n, bh) m else m
 
 /-- body of `for hash, cell := range tr.tests` (benchseries.go:516-559) -/
 def step (env : Env) (pol : Policy) (a : Acc) (c : Contrib) : Acc :=
   let sk := (c.bench, c.ser)
   let fresh : Cmp := { num := c.num, den := c.den, date := c.date }
   match alookup sk a.cells with
-  | none => { cells := aset sk fresh a.cells, hp := setIfAbsent c.ser (c.hash, c.bhash) a.hp }
+  | none => { cells := aset sk fresh a.cells, hp := setHP c.ser c.hash c.bhash a.hp }
   | some cc =>
     match pol with
     | .replace =>
       { cells := if env.lt cc.date c.date then aset sk fresh a.cells else a.cells,
-        hp := setIfAbsent c.ser (c.hash, c.bhash) a.hp }
+        hp := setHP c.ser c.hash c.bhash a.hp }
     | .combine =>
       { cells := aset sk { num := cc.num ++ c.num, den := combineDen cc.den c.den,
                            date := if env.lt cc.date c.date then c.date else cc.date } a.cells,
@@ -256,8 +259,12 @@ def pairwiseB {α} (r : α → α → Bool) : List α → Bool
 def detTable (env : Env) (pol : Policy) (b : Builder) (t : TKey) : Bool :=
   let cs := contribs env Iter.id b t
   pairwiseB (fun x y =>
-    (x.ser ≠ y.ser || (x.hash = y.hash && x.bhash = y.bhash)) &&
-    (pol ≠ .replace || x.bench ≠ y.bench || x.ser ≠ y.ser || x.date ≠ y.date)) cs
+    (x.ser ≠ y.ser || (x.hash = y.hash && (x.bhash = y.bhash || x.bhash = [] || y.bhash = []))) &&
+    (pol ≠ .replace || x.bench ≠ y.bench || x.ser ≠ y.ser || x.date ≠ y.date)) cs &&
+  -- combine: only the first-visited contribution of a cell reaches HashPairs, so a non-empty
+  -- baseline hash of a series must be certain to be heard
+  (pol ≠ .combine || cs.all fun x => x.bhash = [] ||
+    cs.any fun c => c.ser = x.ser && cs.all fun d => d.ser ≠ c.ser || d.bench ≠ c.bench || d.bhash ≠ [])
 
 def det (env : Env) (pol : Policy) (b : Builder) : Bool :=
   !datesOk env b ||
